@@ -458,11 +458,18 @@ Proof.
   match goal with |- nkeeps _ (nd (if ok (?f ?s1) then _ else _)) =>
     assert (E : nkeeps (nd s) (nd s1)) end.
   { match goal with |- nkeeps _ (nd (upd ?g ?s2)) => set (s3 := s2) end.
-    assert (E3 : los (nd s3) = los (nd s)).
-    { subst s3. rewrite nd_upd. rewrite (fr_fold_node los) by reflexivity.
-      rewrite nd_upd. unfold los. cbn [log others sr set].
-      rewrite (fr_set_role log), (fr_set_role others), (fr_set_role sr) by frs. reflexivity. }
-    eapply nkeeps_trans; [apply nkeeps_los; exact E3|]. clearbody s3.
+    assert (E3 : nkeeps (nd s) (nd s3)).
+    { subst s3. rewrite nd_upd.
+      match goal with |- nkeeps _ (fold_left ?f ?l (nd ?s5)) =>
+        apply (nkeeps_trans _ (nd s5)) end.
+      - apply nkeeps_los. rewrite nd_upd. unfold los. cbn [log others sr set].
+        rewrite (fr_set_role log), (fr_set_role others), (fr_set_role sr) by frs. reflexivity.
+      - cbv beta. apply fold_left_rel; [apply nkeeps_refl|apply nkeeps_trans|].
+        intros a x. eapply nkeeps_trans.
+        + apply (nkeeps_trans_only a _ (adel x (trans (sr a)))); [reflexivity|].
+          intros (S1 & S2 & S3) y bl o Hin. apply In_adel in Hin. eapply S2; eauto.
+        + apply nkeeps_los. reflexivity. }
+    eapply nkeeps_trans; [exact E3|]. clearbody s3.
     rewrite nd_upd. cbv beta zeta. unfold log_add.
     eapply nkeeps_trans.
     - eapply (nkeeps_log_add _ _ (mkEntry (noop_cmd (noop_pk (cf e))) (last_idx (log (nd s3)) + 1) (term (nd s3))));
